@@ -1,7 +1,52 @@
-(* C14 — files conform to the v4 layout and decode independently. *)
-From GK Require Import Base Codec Generated Layout.
+(* C14 — files conform to the v4 layout and decode independently to the flushed state. *)
+From GK Require Import Base Treap TreapSpec Store Codec CodecProofs Disk DiskProofs Generated Layout.
 
-(* the constants and field orders the Go source uses now are those of layout version 4 *)
+(* the constants and field orders the Go source uses NOW (regenerated on every run) are those of layout version 4 *)
 Theorem c14_layout_is_v4 : generated_layout = v4_layout.
 Proof. exact Layout.layout_is_v4. Qed.
 Print Assumptions c14_layout_is_v4.
+
+(* codec round trips: self-delimiting item records, fixed-size node records, the root map, framed root records *)
+Theorem c14_item_roundtrip : forall f o it, item_ok it -> 0 <= o ->
+  read_at f o (item_loc_len it) = Some (enc_item it) -> dec_item f (mkPloc o (item_loc_len it)) = Some it.
+Proof. exact CodecProofs.dec_item_enc. Qed.
+Print Assumptions c14_item_roundtrip.
+
+Theorem c14_node_roundtrip : forall f o il ll rl nn nb,
+  oploc_ok il -> oploc_ok ll -> oploc_ok rl -> 0 <= nn < 2 ^ 64 -> 0 <= nb < 2 ^ 64 -> 0 <= o ->
+  read_at f o node_len = Some (enc_node il ll rl nn nb) ->
+  dec_node f (mkPloc o node_len) = Some (mkNodeRec il ll rl nn nb).
+Proof. exact CodecProofs.dec_node_enc. Qed.
+Print Assumptions c14_node_roundtrip.
+
+Theorem c14_json_roundtrip : forall m, Forall entry_ok m -> dec_json (enc_json m) = Some m.
+Proof. exact CodecProofs.dec_json_enc. Qed.
+Print Assumptions c14_json_roundtrip.
+
+Theorem c14_root_roundtrip : forall f size m, Forall entry_ok m -> 0 <= size <= blen f -> size < two63 ->
+  blen (enc_root m size) < two32 ->
+  let r := enc_root m size in root_at (write_at f size r) (size + blen r) = Some m.
+Proof. exact CodecProofs.root_at_enc. Qed.
+Print Assumptions c14_root_roundtrip.
+
+(* the independent decoder reconstructs from the last root record exactly the flushed state *)
+Theorem c14_decode_flush : forall f size cs f' size' cs',
+  Forall (coll_ok f size) cs -> 0 <= size <= blen f -> flush_bytes f size cs = (f', size', cs') ->
+  size' < two63 -> roots_len + blen (enc_json (root_map cs')) < two32 -> blen f' = size' ->
+  Forall (fun nc => NoDup (node_offs (c_tree (snd nc)))) cs ->
+  decode_store f' = OpOk size' (tmap cs') /\
+  contents (tmap cs') = map (fun nc => (fst nc, elems (c_tree (snd nc)))) cs /\
+  agree f f' size /\ Forall (coll_ok f' size') cs' /\
+  Forall (fun nc => NoDup (node_offs (c_tree (snd nc)))) cs'.
+Proof. exact DiskProofs.flush_decodes_nodup. Qed.
+Print Assumptions c14_decode_flush.
+
+(* and the flushed file conforms: record lengths, items self-delimiting, children before parents, exact
+   persisted aggregates, search order under each collection's comparator, names sorted *)
+Theorem c14_flush_conforms : forall cmpid f size cs f' size' cs',
+  Forall (coll_ok f size) cs -> 0 <= size <= blen f -> flush_bytes f size cs = (f', size', cs') ->
+  size' < two63 -> roots_len + blen (enc_json (root_map cs')) < two32 -> blen f' = size' ->
+  Forall (fun nc => NoDup (node_offs (c_tree (snd nc)))) cs ->
+  names_b (tmap cs) = true -> Forall (coll_conf cmpid) cs -> conforms_v4 cmpid f' = true.
+Proof. exact DiskProofs.flush_conforms_nodup. Qed.
+Print Assumptions c14_flush_conforms.
